@@ -30,6 +30,7 @@ var relPaths = []string{
 	"golang.org/x/sys@v0.1.0/unix/syscall.go", "golang.org/x/tools/go/ssa/builder.go", "golang.org/y/z/w.go", "github.com/onlytwo/parts",
 	"gopkg.in/yaml.v2@v2.4.0/decode.go", "example.com/a/vendor/github.com/p/q/r.go", "runtime/proc.go", "net/http/server.go", "",
 	"github.com/<script>/\"y\"@v1'2/z<.go", "github.com/a/b@v1.0.0-1-abc\"/x.go",
+	"example.com/mail/user@/handler.go", "example.com/x@", "example.com/@/", "@", "gopkg.in/a@b@c/d.go", "example.com/mod@v2/sub/f.go",
 }
 
 type hgen struct {
